@@ -81,6 +81,17 @@ def _clone(n, idmap, subst):
     return out
 
 
+def _all_args(call):
+    """arguments of a call with defaulted ones made explicit (the default value expression the compiler inserted)"""
+    out = []
+    for a in call.get('args', []):
+        if SX.is_node(a) and a.get('k') == 'defaultarg':
+            out.append(a.get('e'))
+        else:
+            out.append(a)
+    return out
+
+
 class _Pseudo:
     """a local closure presented as a helper function"""
     def __init__(self, key, name, params, body, host):
@@ -186,7 +197,7 @@ class _Inliner:
             return None
         if h.kind in ('lambda', 'ctor', 'dtor') or h.key in stack or h is self.f or not (h.file == self.f.file or (h.cls is not None and h.cls == self.f.cls)):
             return None
-        if len(h.params) != len(SX.real_args(e)) or h.d.get('virtual'):
+        if len(h.params) != len(_all_args(e)) or h.d.get('virtual'):
             return None
         if any(n['k'] == 'lambda' for n in SX.walk(h.body)):
             return None
@@ -207,7 +218,7 @@ class _Inliner:
 
     def expand(self, call, h, stack, pure_only=False, tail=False):
         """(prefix statements, returned expression or None) for one call of h, or None when the call cannot be inlined"""
-        args = SX.real_args(call) if call.get('k') != 'opcall' else list(call['args'][1:])
+        args = _all_args(call) if call.get('k') != 'opcall' else list(call['args'][1:])
         self.serial += 1
         tag = '@%d' % self.serial
         idmap = {i: i + tag for i in _locals_of(h)}
